@@ -240,8 +240,25 @@ structure Eff (s s' : St) (D : List Addr) (evs : List Ev) : Prop where
   log : s'.log = s.log ++ evs
   dalloc : s'.dalloc = s.dalloc
 
+/-- `del(NULL)` touches nothing the ledger model is about: only `mitems` (and, in the code before fix d3e4e44, `ub`) -/
+theorem gcRemNull_fields (c : Cfg) (s : St) :
+    (gcRemNull c s).reg = s.reg ∧ (gcRemNull c s).pending = s.pending ∧ (gcRemNull c s).running = s.running ∧
+    (gcRemNull c s).owns = s.owns ∧ (gcRemNull c s).log = s.log ∧ (gcRemNull c s).dalloc = s.dalloc ∧
+    (gcRemNull c s).nulldel = s.nulldel ∧ (gcRemNull c s).marked = s.marked := by
+  unfold gcRemNull
+  cases hr : s.running <;> cases hg : c.remGuardsNull <;>
+    cases hp : (s.pending.contains none && c.remFinalisesPending) <;> simp [hr]
+
 theorem Eff.refl (s : St) : Eff s s [] [] :=
   ⟨(regWithout_nil _).symm, (strikeAll_nil _).symm, rfl, rfl, by simp, rfl⟩
+
+/-- the `del(NULL)` a destructor may issue -/
+theorem Eff.maybe_null (c : Cfg) (b : Bool) (s : St) : Eff s (if b then gcRemNull c s else s) [] [] := by
+  cases b with
+  | false => exact Eff.refl s
+  | true =>
+    obtain ⟨h1, h2, h3, h4, h5, h6, _⟩ := gcRemNull_fields c s
+    exact ⟨by rw [regWithout_nil]; exact h1, by rw [strikeAll_nil]; exact h2, h3, h4, by simp [h5], h6⟩
 
 theorem Eff.trans {s s' s'' : St} {D1 D2 : List Addr} {e1 e2 : List Ev}
     (h1 : Eff s s' D1 e1) (h2 : Eff s' s'' D2 e2) : Eff s s'' (D1 ++ D2) (e1 ++ e2) :=
